@@ -323,6 +323,11 @@ def run(ctx):
         check_stream(ctx, kind, data, desc, line, q)
         if len(ctx.violations) >= 12:
             break
+    # VarDCT frames (LfGlobal / LfGroup / HfGlobal / pass-group section parsers, LF-frame fallback paths)
+    for label, data, _jpeg in fl.synth_vardct(ctx, 5 if q else 50, max_blocks=16):
+        check_stream(ctx, "vardct-jbrd", data, None, label, q)
+        if len(ctx.violations) >= 12:
+            break
     check_fixture(ctx, q)
     ctx.assumptions += [
         "section decoders are abstract in the theorems: the obligation CutClean (a truncated section never yields a non-EOF "
